@@ -20,6 +20,7 @@ ASSUMPTIONS = ['pre-emptive thread interleavings inside lxml/CPython are runtime
                '"no mutable module/class-level state" is decided on the implementation by the snapshot, it is not a statement about the model']
 
 URI = '/akn/za/act/2009/1'
+RICH_URIS = ['/akn/za/act/2009/10/eng@2020-01-01/!main~chp_2', '/akn/za/act/2009/10/eng@2020-01-01/!schedule_1', '/akn/za-cpt/act/by-law/2010/public-places/afr@2021-01-01', '/akn/za/act/2009/10/eng:2012-04-26/!main~sec_3']
 
 def snapshot():
     """repr of every dict/list/set reachable from module globals and class attributes of bluebell's modules"""
@@ -89,11 +90,14 @@ def make_history(rng, nobj):
 def run_history(args):
     seed, nobj, history, probe = args[:4]
     prefix = args[4] if len(args) > 4 else ''      # the eId prefix every object of the history is created with
+    uri_s = args[5] if len(args) > 5 else URI       # the FRBR URI; with a sixth argument all objects are built from ONE FrbrUri object, as a caller would
     import random
     from bluebell.parser import AkomaNtosoParser
     from cobalt import FrbrUri
     from lxml import etree
-    objs = [AkomaNtosoParser(FrbrUri.parse(URI), prefix) for _ in range(nobj)]
+    shared = FrbrUri.parse(uri_s)
+    objs = [AkomaNtosoParser(shared if len(args) > 5 else FrbrUri.parse(uri_s), prefix) for _ in range(nobj)]
+    uri_before = (shared.work_uri(), shared.expression_uri(), shared.manifestation_uri())
     import sys
     sys.setrecursionlimit(1000)          # the interpreter's stock limit, as in a caller's fresh process (the stages raise it for their own runs)
     before = snapshot()
@@ -128,11 +132,13 @@ def run_history(args):
         between = [('hier_element', 'SEC 2. - Other\n\n  Just a fragment.\n'), ('act', 'SEC 3\n  x\n'), ('hier_element', '{{')]
         random.Random(seed).shuffle(between)
         got = [impl.e2e_with(p, root, text, split=(None, between)) for p in objs] + [impl.e2e_with(objs[0], root, text, split=(objs[-1], between[:1]))]
-    want = impl.e2e_sx((URI, root, prefix, text))
+    want = impl.e2e_sx((uri_s, root, prefix, text))
     bad = None
+    if len(args) > 5 and (shared.work_uri(), shared.expression_uri(), shared.manifestation_uri()) != uri_before:
+        bad = "the caller's FrbrUri object was changed by the calls: %r -> %r" % (uri_before[2], shared.manifestation_uri())
     for i, g in enumerate(got):
         if g != want:
-            bad = 'probe%s on object %d differs from a fresh object' % (' (via xml_from_dict)' if via_dict else ' (parse ... tree_to_xml)' if seed % 4 == 1 else '', i)
+            bad = bad or 'probe%s on object %d differs from a fresh object' % (' (via xml_from_dict)' if via_dict else ' (parse ... tree_to_xml)' if seed % 4 == 1 else '', i)
     if before != after:
         diff = [a[0] for a, b in zip(before, after) if a != b][:3]
         bad = bad or 'module/class-level state changed: %s' % diff
@@ -184,18 +190,23 @@ def search(ctx, budget):
         if ctx.rng.random() < 0.2:
             probe = ctx.rng.choice([('hier_element', 'SEC 1. - Title\n  SUBSEC (a)\n    First.\n'), ('block_element', 'TABLE\n  TR\n    TC\n      x {{FOOTNOTE 1}}\n'),
                                     ('hier_element', 'PART A\n  SEC 1\n    x\n  SEC 1\n    y\n'), ('attachment', 'SCHEDULE - One\n  PARA 1.\n    x\n')])
-        jobs.append((ctx.rng.randrange(1 << 30), nobj, h, probe, prefix))
+        if ctx.rng.random() < 0.2:
+            # a FRBR URI with language, date, work component and portion, one FrbrUri object shared by all parser objects of the history
+            jobs.append((ctx.rng.randrange(1 << 30), nobj, h, probe, prefix, ctx.rng.choice(RICH_URIS)))
+        else:
+            jobs.append((ctx.rng.randrange(1 << 30), nobj, h, probe, prefix))
     res = impl.pmap(run_history, jobs, chunk=8)
     # the reference for every probe is also computed by the extracted model, which has no state at all: a "fresh object" of the same
     # process is no reference when the state that leaks is at module level
     ref = [stages.norm_model_xml(y) for y in model.run([['e2e', URI, j[3][0], j[4], j[3][1]] for j in jobs])]
+    ref = [None if len(j) > 5 else y for j, y in zip(jobs, ref)]        # (the model's meta templates cover the fixed URI only)
     for j, r, want in zip(jobs, res, ref):
         ctx.evaluations += 1; ctx.count('histories'); ctx.count('raising_calls', r[1])
         bad = r[0]
-        if not bad and any(g != want for g in r[3]):
+        if not bad and want is not None and any(g != want for g in r[3]):
             bad = 'probe after the history differs from the history-free reference (the extracted model)'
         if bad:
-            ctx.failures.append(({'stage': 'obj', 'seed': j[0], 'objects': j[1], 'history': j[2], 'probe': j[3], 'prefix': j[4]}, bad))
+            ctx.failures.append((dict({'stage': 'obj', 'seed': j[0], 'objects': j[1], 'history': j[2], 'probe': j[3], 'prefix': j[4]}, **({'uri': j[5]} if len(j) > 5 else {})), bad))
         elif r[1] >= 1 and r[2]:
             ctx.nontrivial(repr(j[2:]))
     if not ctx.quick or budget > 1:
@@ -217,7 +228,9 @@ def replay(obj):
     if not case:
         print('nothing to replay:', obj.get('broken_obligations')); return 1
     if case.get('stage') == 'obj':
-        r = run_history((case['seed'], case['objects'], [tuple(c) for c in case['history']], tuple(case['probe']), case.get('prefix', '')))
+        r = run_history((case['seed'], case['objects'], [tuple(c) for c in case['history']], tuple(case['probe']), case.get('prefix', '')) + ((case['uri'],) if case.get('uri') else ()))
+        if case.get('uri'):
+            print(r[:3]); return 1 if r[0] else 0
         want = stages.norm_model_xml(model.run([['e2e', URI, case['probe'][0], case.get('prefix', ''), case['probe'][1]]])[0])
         differs = any(g != want for g in r[3])
         print(r[:3], 'differs from the model:', differs); return 1 if (r[0] or differs) else 0
